@@ -118,9 +118,13 @@ Definition rel (api : apiD) (names : list string) (self at_ : addr) : refE :=
     match a_parent self with
     | [] => quoted
     | p :: ptl =>
-        if match a_parent at_ with q :: _ => String.eqb p q | [] => false end then quoted
-        else if String.eqb p (a_name at_) then RX (ptl ++ [a_name self])%list
-        else quoted
+        (* nested under the same top-level message: quoted; a type nested in the TOP-LEVEL message being declared: relative
+           to its class body; everything else (forward, recursive, and — since 2f90e4e — a nested message that merely carries
+           the name of another top-level message): quoted *)
+        match a_parent at_ with
+        | _ :: _ => quoted
+        | [] => if String.eqb p (a_name at_) then RX (ptl ++ [a_name self])%list else quoted
+        end
     end
   else RX (str_comps api names self).
 
